@@ -71,8 +71,9 @@ def post_eigen(X, P, NSIG, method, threshold, NFFT, criteria, result):
     except Exception:
         return c.fail('eigen:returns-pair', {}, feats)
     c.require('eigen:psd-length', psd.shape == (NFFT,), {'len': list(psd.shape), 'NFFT': NFFT}, feats)
+    f_pos = dict(feats, exact_zero_singular_value=_zero_sv(S))
     c.require('eigen:psd-positive', bool(np.isrealobj(psd) and not np.any(np.isnan(psd)) and np.all(psd > 0)),
-              {'min': float(np.nanmin(psd)) if psd.size else None}, feats)
+              {'min': float(np.nanmin(psd)) if psd.size else None}, f_pos, charact=_ev_zero(psd))
     capped = NPr > 100
     NP = min(NPr, 100)
     FB = fb_matrix(x, P, NP)
@@ -115,6 +116,20 @@ def post_eigen(X, P, NSIG, method, threshold, NFFT, criteria, result):
                       detail={'N': N, 'P': P, 'NSIG': nsig, 'NFFT': NFFT, 'gap': float(g), 'shift_tried': list(SHIFTS)})
         else:
             c.discard('eigen:subspace-not-well-separated')
+
+
+def _zero_sv(S):
+    # a noise singular value that is 0 (or so small that 1/S overflows): EV's weights are then infinite
+    S = np.asarray(S, dtype=float)
+    return bool(S.size and float(np.min(S)) <= 1e-280 * float(np.max(S)))
+
+
+def _ev_zero(psd):
+    def ch(which):
+        # F26: EV divides by the noise singular values; when they are exactly 0 the result is 0 (or NaN) everywhere
+        p = np.asarray(psd, dtype=float)
+        return which == 'ev-spectrum-zero-on-exactly-singular-data' and bool(np.all((p == 0) | np.isnan(p)))
+    return ch
 
 
 def _probe_nsig(loc):
@@ -264,8 +279,10 @@ def run_case(c, d):
         return
     if not c.require('exact:psd-has-one-value-per-frequency', bool(freqs_ok), {'len': len(psd), 'NFFT': NFFT}, feats):
         return
+    feats = dict(feats, exact_zero_singular_value=_zero_sv(S))
+    ch0 = _ev_zero(psd)
     c.require('exact:pseudo-spectrum-positive', bool(not np.any(np.isnan(psd)) and np.all(psd > 0)),
-              {'min': float(np.nanmin(psd))}, feats)
+              {'min': float(np.nanmin(psd))}, feats, charact=ch0)
     # finite wherever the noise-subspace projection does not vanish (two or more bins away from a tone)
     if bins_of is not None:
         tb = sorted(set(b % NFFT for b in (d['bins'] + [-b for b in d['bins']] if real else d['bins'])))
@@ -296,7 +313,7 @@ def run_case(c, d):
         worst = max(worst, min([dist(b, q) for b in want] or [NFFT]))
     c.err('exact:peak-distance-bins', worst)
     c.require('exact:K-largest-maxima-within-one-bin-of-the-true-frequencies', worst <= 1,
-              {'true_bins': want, 'peak_bins': pk_bins, 'NFFT': NFFT, 'P': P, 'N': N}, feats)
+              {'true_bins': want, 'peak_bins': pk_bins, 'NFFT': NFFT, 'P': P, 'N': N}, feats, charact=ch0)
 
 
 def finish(c):
